@@ -1360,6 +1360,7 @@ def gen_chained(g, tier, ciphers, hashes, stream, lens=(16, 48, 272, 1040)):
                     else:
                         coff, clen = hdr, n
                     g.add(c, h, stream, dir=d, order=order, key=g.rnd(kl), akey=akey_for(g, h), iv=g.rnd(il), msg=msg,
+                          aiv=g.rnd(16) if h == 46 else b"",
                           coff=coff, clen=clen, hoff=0, hlen=hdr + n, tag=tg, inplace=inplace, hdst=hdst)
                     j += 1
 
